@@ -72,6 +72,27 @@ Theorem C03_cli_order : forall fmts fs skip i r next fmt, in_model_name i = true
 Proof. exact cli_inputs_cons. Qed.
 Print Assumptions C03_cli_order.
 
+(* a filename chain of ANY length: if each layer is a supported readable file (possibly through links) without a
+   $parent directive whose filename parent is the next one, loading the top returns exactly the layers bottom-up -
+   base first - each naming the layer below it as its parent file; nothing else is loaded, and no bound on the depth
+   other than the fuel covering it *)
+Theorem C03_chain_any_depth : forall fmts fs layers fuel cid chain top docs' rest,
+  layers = (top, docs') :: rest -> linked fmts fs layers -> NoDup (map fst layers) ->
+  (forall p, In p (map fst layers) -> ~ In p chain) -> List.length layers <= fuel ->
+  load_chain fuel fmts fs top cid chain = Ok (expected cid layers).
+Proof. exact chain_loads. Qed.
+Print Assumptions C03_chain_any_depth.
+
+(* its premises are met by the three-level mixed-extension chain below *)
+Example C03_chain_linked :
+  let fs := [("a.yaml", FReg (Ok [VMap [("x", VInt 1)]])); ("a.b.json", FReg (Ok [VMap [("y", VInt 2)]])); ("a.b.c.toml", FReg (Ok [VMap [("z", VInt 3)]]))] in
+  linked ["json"; "toml"; "yaml"] fs
+    [("a.b.c.toml", [VMap [("z", VInt 3)]]); ("a.b.json", [VMap [("y", VInt 2)]]); ("a.yaml", [VMap [("x", VInt 1)]])].
+Proof.
+  cbn [linked next_of]. repeat split; try reflexivity;
+    (eexists; eexists; split; [reflexivity|split; reflexivity]).
+Qed.
+
 (* non-vacuity: a three-level filename chain under mixed extensions loads base first *)
 Example C03_chain_example :
   let fs := [("a.yaml", FReg (Ok [VMap [("x", VInt 1)]])); ("a.b.json", FReg (Ok [VMap [("y", VInt 2)]])); ("a.b.c.toml", FReg (Ok [VMap [("z", VInt 3)]]))] in
